@@ -36,7 +36,7 @@ pub fn layout_for(i: usize, seed: u64) -> Value {
     let k = i as u64 + seed;
     let mut settings = serde_json::Map::new();
     settings.insert("datafusion.execution.target_partitions".into(), json!(format!("{}", 1 + (k / 9) % 4)));
-    if k % 2 == 0 {
+    if k % 3 != 0 {
         // optimizer rules that are switched off by default (semantics-neutral switches)
         settings.insert("datafusion.optimizer.filter_null_join_keys".into(), json!("true"));
         settings.insert("datafusion.optimizer.enable_unions_to_filter".into(), json!("true"));
